@@ -39,6 +39,8 @@ fn pos_of(text: &str, off: usize) -> (u32, u32)
 
 /// `files[0]` is main.asm; `blame` = for each file name the byte offset of the statement that every diagnostic
 /// naming that file must point at
+thread_local! {static EXE_RUNS: std::cell::Cell<u32> = std::cell::Cell::new(0);}
+
 fn check_files(cx: &mut Cx, files: &[(String, String)], blame: &[(String, usize)], dir: &std::path::Path)
 {
 	let input = format!("diagp {} ; {}", files.iter().map(|(n, t)| format!("{n}={}", hex(t.as_bytes()))).collect::<Vec<_>>().join(" "),
@@ -55,6 +57,32 @@ fn check_files(cx: &mut Cx, files: &[(String, String)], blame: &[(String, usize)
 			{
 				if o.close_err.is_none() {cx.report.oracle_fail(input, "the ill-formed statement produced no diagnostic");}
 				return;
+			}
+			// the EXECUTABLE on the same main file (a sample of the cases with a carriage return): every `(main.asm:line:col)` it prints on
+			// stderr is the position of a statement at fault
+			if files.len() == 1 && files[0].1.contains('\r') && EXE_RUNS.with(|c| {let n = c.get(); c.set(n + 1); n < 300})
+			{
+				let exe = repo_bin("trias");
+				if exe.exists()
+				{
+					if let Ok(out) = std::process::Command::new(&exe).arg("main.asm").current_dir(dir).output()
+					{
+						cx.report.hit("diagnostic positions printed by the executable (files with a CR)");
+						let err = String::from_utf8_lossy(&out.stderr).into_owned();
+						for l in err.lines().filter(|l| l.starts_with("Error"))
+						{
+							let Some(at) = l.rfind("(main.asm:") else {continue};
+							let nums: Vec<u32> = l[at + 10..].trim_end_matches(')').split(':').filter_map(|x| x.parse().ok()).collect();
+							if nums.len() == 2 && !want.iter().any(|(n, w)| n == "main.asm" && *w == (nums[0], nums[1]))
+							{
+								cx.report.oracle_fail(input.clone(), format!("the executable prints {l:?}; the statement at fault starts at {:?}", want.iter().map(|(_, w)| *w).collect::<Vec<_>>()));
+								break;
+							}
+						}
+						if err.trim().is_empty() {cx.report.oracle_fail(input.clone(), "the executable prints no diagnostic for the ill-formed program");}
+					}
+				}
+				else if !cx.report.notes.iter().any(|n| n.starts_with("trias is not built")) {cx.report.notes.push("trias is not built for this check (props/C12.json needs_bins): positions printed by the executable are not compared".to_owned());}
 			}
 			// what the executable prints for a diagnostic ends with "(file:line:col)" of that same position
 			for ((file, line, col, _), text) in o.errors.iter().zip(o.printed.iter())
